@@ -91,7 +91,7 @@ def audit(pid):
     obl = json.load(open(os.path.join(LEAN, 'obligations.json'))).get(pid, [])
     if not obl:
         return 0, 0, ['no obligations registered']
-    p = subprocess.run(['lake', 'env', 'lean', '--run', 'Rmk/Audit.lean'] + obl, cwd=LEAN,
+    p = subprocess.run(['lake', 'env', 'lean', 'Rmk/Audit.lean'], cwd=LEAN,
                        capture_output=True, text=True)
     details = []
     ok = 0
@@ -338,7 +338,7 @@ def main():
         property_id=pid, tier=tier, seed=seed, level='proof',
         coverage=dict(
             obligations=n_obl, discharged=n_ok,
-            checker_cmd='cd lean && lake build && lake env lean --run Rmk/Audit.lean <theorems of %s>%s' % (pid, checker_extra),
+            checker_cmd='cd lean && lake build && lake env lean Rmk/Audit.lean  (theorems of %s in obligations.json)%s' % (pid, checker_extra),
             trusted_base=TRUSTED + P.trusted,
             theorems=details,
             forbidden_token_hits=hits,
